@@ -176,9 +176,13 @@ def make_stream(rng, n, base_s, start_s, faults, scale=100.0, regimes=None, regi
             row[0] = rows[-1][0]
         rows.append(row)
         if dup and rng.random() < dup["p"] and len(rows) < n:
-            d = ex.next()
-            ex.t -= base_s  # the duplicate does not advance the market clock
-            d[0] = row[0]
+            if rng.random() < dup.get("exact", 0.0):
+                d = list(row)   # the feed re-sends the very same candle
+                fired["dup_exact"] += 1
+            else:
+                d = ex.next()
+                ex.t -= base_s  # the duplicate does not advance the market clock
+                d[0] = row[0]
             rows.append(d)
             fired["dup"] += 1
         if tight and len(rows) >= tight.get("after", 0) and rng.random() < tight["p"]:
